@@ -1,4 +1,10 @@
 
+(** val negb : bool -> bool **)
+
+let negb = function
+| true -> false
+| false -> true
+
 type nat =
 | O
 | S of nat
@@ -34,6 +40,15 @@ module Coq__1 = struct
    | S p -> S (add p m)
 end
 include Coq__1
+
+(** val sub : nat -> nat -> nat **)
+
+let rec sub n0 m =
+  match n0 with
+  | O -> n0
+  | S k -> (match m with
+            | O -> n0
+            | S l -> sub k l)
 
 (** val eqb : nat -> nat -> bool **)
 
@@ -2052,6 +2067,31 @@ let utf8_cont u b =
     then UMore UTail2
     else UBad
 
+(** val valid_from : ustate option -> n list -> bool **)
+
+let rec valid_from u = function
+| [] -> (match u with
+         | Some _ -> false
+         | None -> true)
+| b :: rest ->
+  (match u with
+   | Some u0 ->
+     (match utf8_cont u0 b with
+      | UMore u' -> valid_from (Some u') rest
+      | UDone -> valid_from None rest
+      | UBad -> false)
+   | None ->
+     if N.ltb b (Npos (XO (XO (XO (XO (XO (XO (XO XH))))))))
+     then valid_from None rest
+     else (match utf8_lead b with
+           | Some u' -> valid_from (Some u') rest
+           | None -> false))
+
+(** val valid_utf8 : n list -> bool **)
+
+let valid_utf8 bs =
+  valid_from None bs
+
 (** val utf8_decode : n list -> n **)
 
 let utf8_decode = function
@@ -2569,6 +2609,67 @@ let vt_step s b =
        (s2, (app ev_exit (app ev_act ev_entry)))
      | None -> do_action s a b)
 
+(** val is_ws_control : n -> bool **)
+
+let is_ws_control b =
+  (||)
+    ((||)
+      ((||) (N.eqb b (Npos (XI (XO (XO XH)))))
+        (N.eqb b (Npos (XO (XI (XO XH))))))
+      (N.eqb b (Npos (XO (XO (XI XH)))))) (N.eqb b (Npos (XI (XO (XI XH)))))
+
+(** val keeps : vact -> n -> bool **)
+
+let keeps a b =
+  match a with
+  | TPrint -> negb (N.eqb b (Npos (XI (XI (XI (XI (XI (XI XH))))))))
+  | TExecute -> is_ws_control b
+  | TUtf8 -> true
+  | _ -> false
+
+type sstate = { sv : vstate; su : ustate option }
+
+(** val s_init : sstate **)
+
+let s_init =
+  { sv = VGround; su = None }
+
+(** val plain_step : vstate -> n -> sstate * bool **)
+
+let plain_step v b =
+  let (tgt, a) = vt_trans v b in
+  let v' = match tgt with
+           | Some t -> t
+           | None -> v in
+  (match a with
+   | TUtf8 -> ({ sv = v'; su = (utf8_lead b) }, true)
+   | _ -> ({ sv = v'; su = None }, (keeps a b)))
+
+(** val strip_step : sstate -> n -> sstate * bool **)
+
+let strip_step s b =
+  match s.su with
+  | Some u ->
+    if N.ltb b (Npos (XO (XO (XO (XO (XO (XO (XO XH))))))))
+    then plain_step VGround b
+    else (match utf8_cont u b with
+          | UMore u' -> ({ sv = s.sv; su = (Some u') }, true)
+          | _ -> ({ sv = s.sv; su = None }, true))
+  | None -> plain_step s.sv b
+
+(** val strip_run : sstate -> n list -> sstate * n list **)
+
+let rec strip_run s = function
+| [] -> (s, [])
+| b :: rest ->
+  let (s1, k) = strip_step s b in
+  let (s2, out) = strip_run s1 rest in (s2, (if k then b :: out else out))
+
+(** val spec_strip : n list -> n list **)
+
+let spec_strip bs =
+  snd (strip_run s_init bs)
+
 (** val aget : 'a1 list -> n -> 'a1 option **)
 
 let aget l i =
@@ -2796,6 +2897,16 @@ let state_change s b =
      | Some c -> unpack c
      | None -> None)
   | None -> None
+
+(** val state_eqb : state -> state -> bool **)
+
+let state_eqb a b =
+  N.eqb (state_disc a) (state_disc b)
+
+(** val action_eqb : action -> action -> bool **)
+
+let action_eqb a b =
+  N.eqb (action_disc a) (action_disc b)
 
 type params = { subparams : n list; pvals : n list; current_subparams : 
                 n; plen : n }
@@ -3701,4 +3812,325 @@ let advance c p b =
   | _ ->
     (match state_change p.pstate b with
      | Some p0 -> let (s, a) = p0 in perform_state_change c p s a b
+     | None -> None)
+
+(** val is_ascii_whitespace : n -> bool **)
+
+let is_ascii_whitespace b =
+  (||)
+    ((||)
+      ((||)
+        ((||) (N.eqb b (Npos (XI (XO (XO XH)))))
+          (N.eqb b (Npos (XO (XI (XO XH))))))
+        (N.eqb b (Npos (XO (XO (XI XH))))))
+      (N.eqb b (Npos (XI (XO (XI XH))))))
+    (N.eqb b (Npos (XO (XO (XO (XO (XO XH)))))))
+
+(** val is_printable_bytes : action -> n -> bool **)
+
+let is_printable_bytes a b =
+  (||)
+    ((||)
+      ((&&) (action_eqb a APrint)
+        (negb (N.eqb b (Npos (XI (XI (XI (XI (XI (XI XH))))))))))
+      (action_eqb a ABeginUtf8))
+    ((&&) (action_eqb a AExecute) (is_ascii_whitespace b))
+
+(** val is_utf8_continuation : n -> bool **)
+
+let is_utf8_continuation b =
+  (&&) (N.leb (Npos (XO (XO (XO (XO (XO (XO (XO XH)))))))) b)
+    (N.leb b (Npos (XI (XI (XI (XI (XI (XI (XO XH)))))))))
+
+(** val is_ascii : n -> bool **)
+
+let is_ascii b =
+  N.ltb b (Npos (XO (XO (XO (XO (XO (XO (XO XH))))))))
+
+(** val utf8_add : u8parser -> n -> u8parser * bool **)
+
+let utf8_add u b =
+  let (u', o) = u8_parser_advance u b in
+  (u', (match o with
+        | U8None -> false
+        | _ -> true))
+
+(** val nb_skip :
+    n list -> state -> u8parser -> ((n list * state) * u8parser) option **)
+
+let rec nb_skip bs st u =
+  match bs with
+  | [] -> Some (([], st), u)
+  | b :: rest ->
+    if (&&) (state_eqb st Utf8) (negb (is_ascii b))
+    then Some ((bs, st), u)
+    else if state_eqb st Utf8
+         then let st0 = Ground in
+              (match state_change st0 b with
+               | Some p ->
+                 let (ns, a) = p in
+                 let st1 = if state_eqb ns Anywhere then st0 else ns in
+                 if is_printable_bytes a b
+                 then Some ((bs, st1), u8_new)
+                 else nb_skip rest st1 u8_new
+               | None -> None)
+         else (match state_change st b with
+               | Some p ->
+                 let (ns, a) = p in
+                 let st1 = if state_eqb ns Anywhere then st else ns in
+                 if is_printable_bytes a b
+                 then Some ((bs, st1), u)
+                 else nb_skip rest st1 u
+               | None -> None)
+
+(** val nb_take :
+    n list -> state -> u8parser -> (((n list * n list) * state) * u8parser)
+    option **)
+
+let rec nb_take bs st u =
+  match bs with
+  | [] -> Some ((([], []), st), u)
+  | b :: rest ->
+    if (&&) (state_eqb st Utf8) (negb (is_ascii b))
+    then let (u1, done0) = utf8_add u b in
+         (match nb_take rest (if done0 then Ground else st) u1 with
+          | Some p ->
+            let (p0, u') = p in
+            let (p1, st') = p0 in
+            let (t, r) = p1 in Some ((((b :: t), r), st'), u')
+          | None -> None)
+    else if state_eqb st Utf8
+         then let st0 = Ground in
+              (match state_change st0 b with
+               | Some p ->
+                 let (ns, a) = p in
+                 if negb (is_printable_bytes a b)
+                 then Some ((([], bs), st0), u8_new)
+                 else if state_eqb ns Utf8
+                      then let (u1, _) = utf8_add u8_new b in
+                           (match nb_take rest ns u1 with
+                            | Some p0 ->
+                              let (p1, u') = p0 in
+                              let (p2, st') = p1 in
+                              let (t, r) = p2 in
+                              Some ((((b :: t), r), st'), u')
+                            | None -> None)
+                      else (match nb_take rest st0 u8_new with
+                            | Some p0 ->
+                              let (p1, u') = p0 in
+                              let (p2, st') = p1 in
+                              let (t, r) = p2 in
+                              Some ((((b :: t), r), st'), u')
+                            | None -> None)
+               | None -> None)
+         else (match state_change st b with
+               | Some p ->
+                 let (ns, a) = p in
+                 if negb (is_printable_bytes a b)
+                 then Some ((([], bs), st), u)
+                 else if state_eqb ns Utf8
+                      then let (u1, _) = utf8_add u b in
+                           (match nb_take rest ns u1 with
+                            | Some p0 ->
+                              let (p1, u') = p0 in
+                              let (p2, st') = p1 in
+                              let (t, r) = p2 in
+                              Some ((((b :: t), r), st'), u')
+                            | None -> None)
+                      else (match nb_take rest st u with
+                            | Some p0 ->
+                              let (p1, u') = p0 in
+                              let (p2, st') = p1 in
+                              let (t, r) = p2 in
+                              Some ((((b :: t), r), st'), u')
+                            | None -> None)
+               | None -> None)
+
+type piece = { p_off : n; p_bytes : n list }
+
+(** val next_bytes :
+    n list -> n -> state -> u8parser -> ((((piece option * n
+    list) * n) * state) * u8parser) option **)
+
+let next_bytes bs off st u =
+  match nb_skip bs st u with
+  | Some p ->
+    let (p0, u1) = p in
+    let (bs1, st1) = p0 in
+    let off1 = N.add off (N.of_nat (sub (length bs) (length bs1))) in
+    (match nb_take bs1 st1 u1 with
+     | Some p1 ->
+       let (p2, u2) = p1 in
+       let (p3, st2) = p2 in
+       let (t, bs2) = p3 in
+       let off2 = N.add off1 (N.of_nat (length t)) in
+       (match t with
+        | [] -> Some ((((None, bs2), off2), st2), u2)
+        | _ :: _ ->
+          Some (((((Some { p_off = off1; p_bytes = t }), bs2), off2), st2),
+            u2))
+     | None -> None)
+  | None -> None
+
+(** val bytes_iter :
+    nat -> n list -> n -> state -> u8parser -> (((piece list * n
+    list) * state) * u8parser) option **)
+
+let rec bytes_iter fuel bs off st u =
+  match fuel with
+  | O -> None
+  | S f ->
+    (match next_bytes bs off st u with
+     | Some p ->
+       let (p0, u') = p in
+       let (p1, st') = p0 in
+       let (p2, off') = p1 in
+       let (p3, bs') = p2 in
+       (match p3 with
+        | Some pc ->
+          (match bytes_iter f bs' off' st' u' with
+           | Some p4 ->
+             let (p5, u'') = p4 in
+             let (p6, st'') = p5 in
+             let (ps, bs'') = p6 in Some ((((pc :: ps), bs''), st''), u'')
+           | None -> None)
+        | None -> Some ((([], bs'), st'), u'))
+     | None -> None)
+
+(** val strip_next_bytes :
+    n list -> state -> u8parser -> (((piece list * n
+    list) * state) * u8parser) option **)
+
+let strip_next_bytes bs st u =
+  bytes_iter (S (length bs)) bs N0 st u
+
+(** val strip_bytes_pieces : n list -> piece list option **)
+
+let strip_bytes_pieces bs =
+  match strip_next_bytes bs Ground u8_new with
+  | Some p ->
+    let (p0, _) = p in let (p1, _) = p0 in let (ps, _) = p1 in Some ps
+  | None -> None
+
+(** val strip_bytes_chunks :
+    n list list -> state -> u8parser -> ((piece list
+    list * state) * u8parser) option **)
+
+let rec strip_bytes_chunks chunks st u =
+  match chunks with
+  | [] -> Some (([], st), u)
+  | c :: rest ->
+    (match strip_next_bytes c st u with
+     | Some p ->
+       let (p0, u') = p in
+       let (p1, st') = p0 in
+       let (ps, _) = p1 in
+       (match strip_bytes_chunks rest st' u' with
+        | Some p2 ->
+          let (p3, u'') = p2 in
+          let (pss, st'') = p3 in Some (((ps :: pss), st''), u'')
+        | None -> None)
+     | None -> None)
+
+(** val ns_skip : n list -> state -> (n list * state) option **)
+
+let rec ns_skip bs st =
+  match bs with
+  | [] -> Some ([], st)
+  | b :: rest ->
+    (match state_change st b with
+     | Some p ->
+       let (ns, a) = p in
+       let st1 =
+         if (&&) (negb (state_eqb ns Anywhere)) (negb (state_eqb ns Utf8))
+         then ns
+         else st
+       in
+       if is_printable_bytes a b then Some (bs, st1) else ns_skip rest st1
+     | None -> None)
+
+(** val ns_take : n list -> state -> (n list * n list) option **)
+
+let rec ns_take bs st =
+  match bs with
+  | [] -> Some ([], [])
+  | b :: rest ->
+    (match state_change st b with
+     | Some p ->
+       let (_, a) = p in
+       if negb ((||) (is_printable_bytes a b) (is_utf8_continuation b))
+       then Some ([], bs)
+       else (match ns_take rest st with
+             | Some p0 -> let (t, r) = p0 in Some ((b :: t), r)
+             | None -> None)
+     | None -> None)
+
+(** val next_str :
+    n list -> n -> state -> (((piece option * n list) * n) * state) option **)
+
+let next_str bs off st =
+  match ns_skip bs st with
+  | Some p ->
+    let (bs1, st1) = p in
+    let off1 = N.add off (N.of_nat (sub (length bs) (length bs1))) in
+    (match ns_take bs1 st1 with
+     | Some p0 ->
+       let (t, bs2) = p0 in
+       let off2 = N.add off1 (N.of_nat (length t)) in
+       (match t with
+        | [] -> Some (((None, bs2), off2), st1)
+        | _ :: _ ->
+          Some ((((Some { p_off = off1; p_bytes = t }), bs2), off2), st1))
+     | None -> None)
+  | None -> None
+
+(** val str_iter :
+    nat -> n list -> n -> state -> ((piece list * n list) * state) option **)
+
+let rec str_iter fuel bs off st =
+  match fuel with
+  | O -> None
+  | S f ->
+    (match next_str bs off st with
+     | Some p ->
+       let (p0, st') = p in
+       let (p1, off') = p0 in
+       let (p2, bs') = p1 in
+       (match p2 with
+        | Some pc ->
+          (match str_iter f bs' off' st' with
+           | Some p3 ->
+             let (p4, st'') = p3 in
+             let (ps, bs'') = p4 in Some (((pc :: ps), bs''), st'')
+           | None -> None)
+        | None -> Some (([], bs'), st'))
+     | None -> None)
+
+(** val strip_next_str :
+    n list -> state -> ((piece list * n list) * state) option **)
+
+let strip_next_str bs st =
+  str_iter (S (length bs)) bs N0 st
+
+(** val strip_str_pieces : n list -> piece list option **)
+
+let strip_str_pieces bs =
+  match strip_next_str bs Ground with
+  | Some p -> let (p0, _) = p in let (ps, _) = p0 in Some ps
+  | None -> None
+
+(** val strip_str_chunks :
+    n list list -> state -> (piece list list * state) option **)
+
+let rec strip_str_chunks chunks st =
+  match chunks with
+  | [] -> Some ([], st)
+  | c :: rest ->
+    (match strip_next_str c st with
+     | Some p ->
+       let (p0, st') = p in
+       let (ps, _) = p0 in
+       (match strip_str_chunks rest st' with
+        | Some p1 -> let (pss, st'') = p1 in Some ((ps :: pss), st'')
+        | None -> None)
      | None -> None)
